@@ -281,5 +281,6 @@ def main(chk):
         chk.sample({"program": progs[i], "expected_trace": cases[i][2], "expected": cases[i][3],
                     "impl": {k: res[i]["impl"].get(k) for k in ("kind", "repr", "errk", "out")}, "model_verdict": res[i]["verdict"]})
     chk.cov["rule"] += " Added after seeded round 5: an element / result / receiver that is an inherited nil, a receiver that is a descendant of Arr with its own _iter."
+    chk.cov["rule"] += " (10 receiver kinds in all.) Added after seeded round 6: a built-in function object as callee, strict chains with obj / map / arr chain arguments and nil results, a child of an iterator as receiver."
     return pancore.conclude(chk, ok, broken, "Props/C04.v", res, viol, model_only, "C04",
                             "Core.Interp (prop_chain, lit_chain) vs evaluator/eval_{propcall,literalcall}_chain.go")
